@@ -882,7 +882,9 @@ def tok_fuzz(r):
                 ls, _ = image_lines(r, rbytes(r, r.randrange(1, 40)), t, lambda: 16)
                 toks.insert(k, ("load", ls))
             elif mut == "loadstr":
-                toks.insert(k, ("load", r.choice(["", {}, {"0": "1"}])))
+                # a ("load", <dict>) token is what "#>load ..." parses to; ("load", <str>) can no longer
+                # come from the parser ("##load:" is refused there) and is not generated
+                toks.insert(k, ("load", r.choice([{}, {"0": "1"}, {"A": "b", "C": "d"}])))
             elif mut == "weirdlines":
                 toks.insert(k, ("load", weird_lines(r)[1] or [line_of(0, 0x35, b"\x03\x00\x00A")]))
             elif mut == "select_bad":
@@ -944,7 +946,9 @@ def text_fuzz(r, text):
                                   "#>X A=1\x1c", "#>X\xa0A=1", "#>load", "#>CRC 0x12345678"]))
     elif mut == "metajunk":
         lines.insert(k, r.choice(["##", "##:", "##A", "##A:B:C", "## A : B ", "##A:", "##Creator:\ttool\x1f ", "##REBOOT:",
-                                  "##Bf3Update:1", "###x:y", "##CRC: 0x0000BEEF", "##CRC:0xBEEF", "##SELECT: text"]))
+                                  "##Bf3Update:1", "###x:y", "##CRC: 0x0000BEEF", "##CRC:0xBEEF", "##SELECT: text",
+                                  "##load: x", "##load:", "##load", "## load: x", "##Load: x", "##load:x:y",
+                                  "##CRC: 0x1FFFFFFFF", "##CRC: 0x-1", "##Firmware: 70000 DE ZBA   1.02.03"]))
     elif mut == "nocolon":
         lines.insert(k, r.choice(["0000FE00", " :0000FF00", "#:", "# > REBOOT", "#", ""]))
     elif mut == "twocolon" and lines[k].startswith(":"):
